@@ -93,7 +93,7 @@ def run(rep: Report, tier: str) -> None:
                 callees = {(_callee_name(c)) for s in node.body for c in ast.walk(s) if isinstance(c, ast.Call)}
                 if allowed is not None:
                     grown = sorted(c for c in callees if c not in allowed)
-                    rep.check(not grown, ra, mod.name, q, f"benign handler except {caught} in {q} still covers only the confirmed calls", f"the try body guarded by the tabled-benign 'except {caught}' in {q} now also covers {grown}: errors of those calls would be swallowed ({reason})", loc(node), definite=True)
+                    rep.check(not grown, ra, mod.name, q, f"benign handler except {caught} in {q} still covers only the confirmed calls", f"the try body guarded by the tabled-benign 'except {caught}' in {q} now also covers {grown}: errors of those calls would be swallowed ({reason})", loc(node), definite=_any_known(grown) or not (set(allowed) - callees))  # a new name standing where a confirmed one vanished may be a rename: not a positive finding
                 else:
                     rep.ok(ra, f"benign handler except {caught} in {q}", reason)
     for key in BENIGN_HANDLERS:
@@ -195,6 +195,14 @@ SPECS = {
         "taxable_event": _V("AbstractTransaction.type_check"),
     },
 }
+
+
+def _any_known(names) -> bool:
+    """At least one of the names is a function / class that exists in the reference tree (a callee that is merely renamed or newly extracted is not a positive finding)."""
+    from ..delegation import table
+
+    known = set(table().get("defined", []))
+    return any(n in known or "." in str(n) for n in names) if known else True
 
 
 def _validated_uses(m, ci, param: str) -> List[Tuple[str, Dict[str, Any], ast.AST]]:
@@ -350,7 +358,7 @@ def _check_validators(rep: Report, rule: str, m) -> None:
         rs = m.raises_in(m.init_of(ci), early_exits=False)
         for what, want_atoms in items:
             ok = any(_same_atoms(_implied_atoms(g), want_atoms) for g, _ in rs)
-            rep.check(ok, rule, mod, f"{cname}.__init__", f"{cname}: {what}", f"{cname}.__init__ has no raise exactly under '{' and '.join(show(a) for a in want_atoms)}' ({what}); guards: {[show(g)[:80] for g, _ in rs]}", loc(ci.node))
+            rep.check(ok, rule, mod, f"{cname}.__init__", f"{cname}: {what}", f"{cname}.__init__ has no raise exactly under '{' and '.join(show(a) for a in want_atoms)}' ({what}); guards: {[show(g)[:80] for g, _ in rs]}", loc(ci.node), reads_shape=True)
     intra = prog.cls("rp2.intra_transaction", "IntraTransaction")
     rs = m.raises_in(m.init_of(intra), early_exits=False)
     ok = any("IntraTransaction.__crypto_fee] != D0" in show(g) and "spot_price is None" in show(g) and "(spot_price == D0)" in show(g) for g, _ in rs)
